@@ -49,6 +49,7 @@ type Contract struct {
 	GhostEntry []*Clause
 	GhostExit  []*Clause
 	EnsuresPre []*Clause // checked at exits before the ghost-exit assignments
+	ClosureGhost []*Clause // ghost assignments performed where the closure is created
 }
 
 type GhostVar struct {
@@ -274,7 +275,7 @@ func (cs *Contracts) loadFile(path string) error {
 			cur.EnsuresPre = append(cur.EnsuresPre, cl)
 		case "trusted-ensures":
 			cur.TrustedEns = append(cur.TrustedEns, cl)
-		case "ghost-entry", "ghost-exit":
+		case "ghost-entry", "ghost-exit", "closure-ghost":
 			// ghost-entry NAME = EXPR
 			eq := strings.Index(cl.Text, "=")
 			if eq < 0 {
@@ -284,6 +285,8 @@ func (cs *Contracts) loadFile(path string) error {
 			cl.Text = strings.TrimSpace(cl.Text[eq+1:])
 			if kw == "ghost-entry" {
 				cur.GhostEntry = append(cur.GhostEntry, cl)
+			} else if kw == "closure-ghost" {
+				cur.ClosureGhost = append(cur.ClosureGhost, cl)
 			} else {
 				cur.GhostExit = append(cur.GhostExit, cl)
 			}
@@ -400,11 +403,12 @@ func (cs *Contracts) ParseAll() error {
 		all = append(all, c.GhostEntry...)
 		all = append(all, c.GhostExit...)
 		all = append(all, c.EnsuresPre...)
+		all = append(all, c.ClosureGhost...)
 		for _, l := range c.Loops {
 			all = append(all, l...)
 		}
 		for _, cl := range all {
-			if cl.Kind == "decreases" || cl.Kind == "invariant" || cl.Kind == "step" || cl.Kind == "exit" || cl.Kind == "requires" || cl.Kind == "ensures" || cl.Kind == "ensures-on-panic" || cl.Kind == "assert" || cl.Kind == "closure-invariant" || cl.Kind == "free-requires" || cl.Kind == "trusted-ensures" || cl.Kind == "ghost-entry" || cl.Kind == "ghost-exit" || cl.Kind == "ensures-before-exit" {
+			if cl.Kind == "decreases" || cl.Kind == "invariant" || cl.Kind == "step" || cl.Kind == "exit" || cl.Kind == "requires" || cl.Kind == "ensures" || cl.Kind == "ensures-on-panic" || cl.Kind == "assert" || cl.Kind == "closure-invariant" || cl.Kind == "free-requires" || cl.Kind == "trusted-ensures" || cl.Kind == "ghost-entry" || cl.Kind == "ghost-exit" || cl.Kind == "ensures-before-exit" || cl.Kind == "closure-ghost" {
 				e, err := ParseExpr(cl.Text)
 				if err != nil {
 					return fmt.Errorf("%s: %v in %q", cl.Line, err, cl.Text)
